@@ -37,6 +37,9 @@ Section Upd.
   Qed.
 End Upd.
 
+Lemma nth_repeat_lt {A} (a d : A) m k : k < m -> nth k (repeat a m) d = a.
+Proof. revert k; induction m as [|m IH]; intros [|k] H; cbn; try lia; auto. apply IH; lia. Qed.
+
 Lemma remove_nth_length {A} i (l : list A) x :
   nth_error l i = Some x -> S (length (remove_nth i l)) = length l.
 Proof.
@@ -68,4 +71,244 @@ Lemma exit_test_cases s evs :
 Proof.
   unfold exit_test. destruct ((pending s =? 0)%Z && enq_nil s) eqn:E; [right|left]; auto.
   apply andb_true_iff in E as [E1 E2]. apply Z.eqb_eq in E1. auto.
+Qed.
+
+(* ---------- effects of reg_deps / mark_invalid / notify, job by job ---------- *)
+
+Definition jget (js : list jst) (x : jid) : jst := nth x js jst0.
+
+Lemma jget_upd js x y f : jget (upd y f js) x = if (Nat.eqb y x) && (y <? length js) then f (jget js x) else jget js x.
+Proof. unfold jget. apply nth_upd. Qed.
+
+Lemma jget_upd_pres {A} (P : jst -> A) js x y f :
+  (forall z, P (f z) = P z) -> P (jget (upd y f js) x) = P (jget js x).
+Proof. intros H. rewrite jget_upd. destruct (_ && _); auto. Qed.
+
+Definition is_some {A} (o : option A) : bool := match o with Some _ => true | None => false end.
+
+Section RegDeps.
+  Variable k : jid.
+
+  Lemma reg_deps_done_err ds : forall js x,
+    jdone (jget (reg_deps k ds js) x) = jdone (jget js x) /\
+    jerr (jget (reg_deps k ds js) x) = jerr (jget js x).
+  Proof.
+    induction ds as [|d ds IH]; intros js x; cbn [reg_deps]; auto.
+    fold (jget js d). destruct (jdone (jget js d)) eqn:Dd.
+    - destruct (jerr (jget js d)).
+      + destruct (IH (upd k (jset_jinvalid true) js) x) as [-> ->].
+        rewrite jget_upd. destruct (_ && _); auto.
+      + apply IH.
+    - destruct (IH (upd k (fun x0 => jset_remaining (remaining x0 + 1)%Z x0)
+                      (upd d (fun x0 => jset_consumers (consumers x0 ++ [k]) x0) js)) x) as [-> ->].
+      rewrite !jget_upd. destruct (_ && _), (_ && _); auto.
+  Qed.
+
+  Lemma reg_deps_other ds : forall js x, x <> k ->
+    remaining (jget (reg_deps k ds js) x) = remaining (jget js x) /\
+    jinvalid (jget (reg_deps k ds js) x) = jinvalid (jget js x).
+  Proof.
+    induction ds as [|d ds IH]; intros js x Hx; cbn [reg_deps]; auto.
+    fold (jget js d). destruct (jdone (jget js d)).
+    - destruct (jerr (jget js d)).
+      + destruct (IH (upd k (jset_jinvalid true) js) x Hx) as [-> ->].
+        rewrite jget_upd. destruct (Nat.eqb_spec k x); [congruence|]. auto.
+      + now apply IH.
+    - destruct (IH (upd k (fun x0 => jset_remaining (remaining x0 + 1)%Z x0)
+                      (upd d (fun x0 => jset_consumers (consumers x0 ++ [k]) x0) js)) x Hx) as [-> ->].
+      rewrite !jget_upd. destruct (Nat.eqb_spec k x); [congruence|]. cbn [andb].
+      destruct (_ && _); auto.
+  Qed.
+
+  Lemma filter_ext' {A} (f g : A -> bool) l : (forall a, f a = g a) -> filter f l = filter g l.
+  Proof. intros H. induction l as [|a l IH]; cbn; auto. rewrite H, IH. reflexivity. Qed.
+  Lemma existsb_ext' {A} (f g : A -> bool) l : (forall a, f a = g a) -> existsb f l = existsb g l.
+  Proof. intros H. induction l as [|a l IH]; cbn; auto. rewrite H, IH. reflexivity. Qed.
+
+  Definition undone_in (js : list jst) (d : jid) : bool := negb (jdone (jget js d)).
+  Definition failed_in (js : list jst) (d : jid) : bool := jdone (jget js d) && is_some (jerr (jget js d)).
+
+  Lemma reg_deps_self ds : forall js,
+    k < length js -> ~ In k ds ->
+    remaining (jget (reg_deps k ds js) k)
+      = (remaining (jget js k) + Z.of_nat (length (filter (undone_in js) ds)))%Z /\
+    jinvalid (jget (reg_deps k ds js) k) = jinvalid (jget js k) || existsb (failed_in js) ds /\
+    consumers (jget (reg_deps k ds js) k) = consumers (jget js k).
+  Proof.
+    induction ds as [|d ds IH]; intros js Hk Hn.
+    - cbn. rewrite Z.add_0_r, orb_false_r. auto.
+    - assert (Hdk : d <> k) by (intros ->; apply Hn; now left).
+      assert (Hn' : ~ In k ds) by (intros H; apply Hn; now right).
+      apply Nat.ltb_lt in Hk as Hk'.
+      cbn [reg_deps filter existsb]. fold (jget js d). unfold undone_in at 1, failed_in at 1.
+      destruct (jdone (jget js d)) eqn:Dd; cbn [negb andb].
+      + destruct (jerr (jget js d)) eqn:Ed; cbn [is_some].
+        * destruct (IH (upd k (jset_jinvalid true) js)) as (R & V & C); [now rewrite upd_length | auto |].
+          rewrite R, V, C. rewrite !jget_upd, Nat.eqb_refl, Hk'. cbn.
+          rewrite orb_true_r.
+          rewrite (filter_ext' (undone_in (upd k (jset_jinvalid true) js)) (undone_in js)).
+          2:{ intros a. unfold undone_in. now rewrite (jget_upd_pres jdone). }
+          auto.
+        * destruct (IH js Hk Hn') as (R & V & C). rewrite R, V, C. auto.
+      + set (f1 := fun x0 => jset_remaining (remaining x0 + 1)%Z x0).
+        set (f2 := fun x0 => jset_consumers (consumers x0 ++ [k]) x0).
+        destruct (IH (upd k f1 (upd d f2 js))) as (R & V & C); [now rewrite !upd_length | auto |].
+        rewrite R, V, C. rewrite !jget_upd, Nat.eqb_refl, upd_length, Hk'.
+        destruct (Nat.eqb_spec d k); [congruence|]. cbn [andb]. unfold f1; cbn.
+        rewrite (filter_ext' (undone_in (upd k f1 (upd d f2 js))) (undone_in js)).
+        2:{ intros a. unfold undone_in. now rewrite !(jget_upd_pres jdone). }
+        rewrite (existsb_ext' (failed_in (upd k f1 (upd d f2 js))) (failed_in js)).
+        2:{ intros a. unfold failed_in. now rewrite !(jget_upd_pres jdone), !(jget_upd_pres jerr). }
+        split; [|split]; auto. rewrite Zpos_P_of_succ_nat. lia.
+  Qed.
+
+  (* consumers of every job: k is appended once per occurrence of an undone dependency *)
+  Lemma reg_deps_consumers ds : forall js d y,
+    k < length js -> ~ In k ds -> (forall x, In x ds -> x < length js) ->
+    count_occ Nat.eq_dec (consumers (jget (reg_deps k ds js) d)) y
+    = count_occ Nat.eq_dec (consumers (jget js d)) y
+      + (if (Nat.eqb y k) && undone_in js d then count_occ Nat.eq_dec ds d else 0).
+  Proof.
+    induction ds as [|d0 ds IH]; intros js d y Hk Hn Hlt.
+    - cbn [reg_deps count_occ]. destruct (_ && _); lia.
+    - assert (Hdk : d0 <> k) by (intros ->; apply Hn; now left).
+      assert (Hn' : ~ In k ds) by (intros H; apply Hn; now right).
+      assert (Hd0 : d0 < length js) by (apply Hlt; now left).
+      assert (Hlt' : forall x, In x ds -> x < length js) by (intros x Hx; apply Hlt; now right).
+      cbn [reg_deps]. fold (jget js d0).
+      destruct (jdone (jget js d0)) eqn:Dd.
+      + assert (E : count_occ Nat.eq_dec (d0 :: ds) d = count_occ Nat.eq_dec ds d
+                    \/ undone_in js d = false).
+        { destruct (Nat.eq_dec d0 d) as [->|Hne].
+          - right. unfold undone_in. now rewrite Dd.
+          - left. now rewrite count_occ_cons_neq. }
+        destruct (jerr (jget js d0)).
+        * rewrite IH; [|now rewrite upd_length|auto|intros; rewrite upd_length; auto].
+          rewrite jget_upd. unfold undone_in. rewrite jget_upd.
+          replace (consumers (if (k =? d) && (k <? length js) then jset_jinvalid true (jget js d) else jget js d))
+            with (consumers (jget js d)) by (destruct (_ && _); reflexivity).
+          replace (jdone (if (k =? d) && (k <? length js) then jset_jinvalid true (jget js d) else jget js d))
+            with (jdone (jget js d)) by (destruct (_ && _); reflexivity).
+          fold (undone_in js d). destruct E as [->| ->]; [reflexivity|]. now rewrite !andb_false_r.
+        * rewrite IH; auto. destruct E as [->| ->]; [reflexivity|]. now rewrite !andb_false_r.
+      + set (f1 := fun x0 => jset_remaining (remaining x0 + 1)%Z x0).
+        set (f2 := fun x0 => jset_consumers (consumers x0 ++ [k]) x0).
+        rewrite IH; [|now rewrite !upd_length|auto|intros; rewrite !upd_length; auto].
+        unfold undone_in. rewrite !jget_upd, upd_length.
+        assert (Hd0' : (d0 <? length js) = true) by now apply Nat.ltb_lt.
+        apply Nat.ltb_lt in Hk as Hk'. rewrite Hk', Hd0'. rewrite !andb_true_r.
+        destruct (Nat.eqb_spec k d) as [->|Hkd].
+        * (* d = k: k is not a dependency, consumers of k unchanged *)
+          destruct (Nat.eqb_spec d0 d); [congruence|]. unfold f1; cbn.
+          destruct (Nat.eq_dec d0 d); [congruence|reflexivity].
+        * destruct (Nat.eqb_spec d0 d) as [->|Hne].
+          -- unfold f2; cbn [jset_consumers consumers jdone]. rewrite count_occ_app. cbn [count_occ].
+             rewrite Dd. cbn [negb]. rewrite !andb_true_r.
+             destruct (Nat.eq_dec d d); [|congruence].
+             destruct (Nat.eq_dec k y) as [->|Hky].
+             ++ destruct (Nat.eqb_spec y y); [lia|congruence].
+             ++ destruct (Nat.eqb_spec y k); [congruence|lia].
+          -- cbn [count_occ]. destruct (Nat.eq_dec d0 d); [congruence|reflexivity].
+  Qed.
+End RegDeps.
+
+Lemma mark_invalid_pres {A} (P : jst -> A) cs : forall js x,
+  (forall z, P (jset_jinvalid true z) = P z) ->
+  P (jget (mark_invalid cs js) x) = P (jget js x).
+Proof.
+  induction cs as [|c0 cs IH]; intros js x H; cbn [mark_invalid]; auto.
+  rewrite IH by auto. now apply jget_upd_pres.
+Qed.
+
+Lemma mark_invalid_invalid cs : forall js x,
+  (forall y, In y cs -> y < length js) ->
+  jinvalid (jget (mark_invalid cs js) x) = jinvalid (jget js x) || existsb (Nat.eqb x) cs.
+Proof.
+  induction cs as [|c0 cs IH]; intros js x Hlt; cbn [mark_invalid existsb].
+  - now rewrite orb_false_r.
+  - rewrite IH by (intros; rewrite upd_length; apply Hlt; now right).
+    rewrite jget_upd. assert (E : (c0 <? length js) = true) by (apply Nat.ltb_lt, Hlt; now left).
+    rewrite E, andb_true_r. rewrite (Nat.eqb_sym x c0).
+    destruct (Nat.eqb c0 x); cbn; [now rewrite orb_true_r | reflexivity].
+Qed.
+
+(* notify: every field but [remaining] is untouched *)
+Lemma notify_pres {A} (P : jst -> A) cs : forall js wt rd js' wt' rd' x,
+  (forall z r, P (jset_remaining r z) = P z) ->
+  notify cs js wt rd = (js', wt', rd') -> P (jget js' x) = P (jget js x).
+Proof.
+  induction cs as [|c0 cs IH]; intros js wt rd js' wt' rd' x H E; cbn in E.
+  - now injection E as <- _ _.
+  - destruct (_ =? 0)%Z; apply IH with (x := x) in E; auto; rewrite E; now apply jget_upd_pres.
+Qed.
+
+Lemma notify_remaining cs : forall js wt rd js' wt' rd' x,
+  (forall y, In y cs -> y < length js) ->
+  notify cs js wt rd = (js', wt', rd') ->
+  remaining (jget js' x) = (remaining (jget js x) - Z.of_nat (count_occ Nat.eq_dec cs x))%Z.
+Proof.
+  induction cs as [|c0 cs IH]; intros js wt rd js' wt' rd' x Hlt E; cbn in E.
+  - injection E as <- _ _. cbn. lia.
+  - assert (L : (c0 <? length js) = true) by (apply Nat.ltb_lt, Hlt; now left).
+    destruct (_ =? 0)%Z; apply IH with (x := x) in E;
+      try (intros; rewrite upd_length; apply Hlt; now right);
+      rewrite E, jget_upd, L, andb_true_r; cbn [count_occ];
+      destruct (Nat.eqb_spec c0 x) as [->|Hne]; destruct (Nat.eq_dec _ _); try congruence; cbn; lia.
+Qed.
+
+(* the jobs released by notify: those whose counter reaches zero, each exactly once;
+   precondition: no counter is driven below zero *)
+Lemma notify_released cs : forall js wt rd js' wt' rd',
+  (forall y, In y cs -> y < length js) ->
+  (forall y, In y cs -> (Z.of_nat (count_occ Nat.eq_dec cs y) <= remaining (jget js y))%Z) ->
+  notify cs js wt rd = (js', wt', rd') ->
+  exists rel, rd' = rd ++ rel /\ wt' = (wt - Z.of_nat (length rel))%Z /\
+    forall x, count_occ Nat.eq_dec rel x =
+              if (0 <? count_occ Nat.eq_dec cs x) && (remaining (jget js x) =? Z.of_nat (count_occ Nat.eq_dec cs x))%Z
+              then 1 else 0.
+Proof.
+  induction cs as [|c0 cs IH]; intros js wt rd js' wt' rd' Hlt Hge E; cbn [notify] in E.
+  - injection E as _ <- <-. exists []. rewrite app_nil_r. split; [auto|split; [cbn; lia|]].
+    intros x. reflexivity.
+  - assert (L : (c0 <? length js) = true) by (apply Nat.ltb_lt, Hlt; now left).
+    set (f := fun x0 => jset_remaining (remaining x0 - 1)%Z x0) in *.
+    assert (R0 : remaining (nth c0 (upd c0 f js) jst0) = (remaining (jget js c0) - 1)%Z).
+    { fold (jget (upd c0 f js) c0). rewrite jget_upd, Nat.eqb_refl, L. reflexivity. }
+    assert (Hlt' : forall y, In y cs -> y < length (upd c0 f js))
+      by (intros; rewrite upd_length; apply Hlt; now right).
+    assert (Hge' : forall y, In y cs ->
+               (Z.of_nat (count_occ Nat.eq_dec cs y) <= remaining (jget (upd c0 f js) y))%Z).
+    { intros y Hy. specialize (Hge y (or_intror Hy)). rewrite jget_upd, L, andb_true_r.
+      cbn [count_occ] in Hge. destruct (Nat.eqb_spec c0 y) as [->|Hne];
+        destruct (Nat.eq_dec _ _); try congruence; unfold f; cbn; lia. }
+    assert (Hc0 : (Z.of_nat (S (count_occ Nat.eq_dec cs c0)) <= remaining (jget js c0))%Z).
+    { specialize (Hge c0 (or_introl eq_refl)). cbn [count_occ] in Hge.
+      destruct (Nat.eq_dec c0 c0); [exact Hge|congruence]. }
+    rewrite R0 in E.
+    destruct (remaining (jget js c0) - 1 =? 0)%Z eqn:Z0.
+    + apply Z.eqb_eq in Z0.
+      destruct (IH _ _ _ _ _ _ Hlt' Hge' E) as (rel & -> & -> & Hrel).
+      exists (c0 :: rel). rewrite <- app_assoc. split; [reflexivity|split; [cbn [length]; lia|]].
+      intros x. cbn [count_occ]. rewrite Hrel. rewrite jget_upd, L, andb_true_r.
+      assert (C0 : count_occ Nat.eq_dec cs c0 = 0) by lia.
+      destruct (Nat.eq_dec c0 x) as [->|Hne].
+      * rewrite Nat.eqb_refl, C0. cbn [Nat.ltb Nat.leb andb].
+        replace (remaining (jget js x) =? Z.of_nat 1)%Z with true by (symmetry; apply Z.eqb_eq; lia).
+        reflexivity.
+      * destruct (Nat.eqb_spec c0 x); [congruence|]. reflexivity.
+    + apply Z.eqb_neq in Z0.
+      destruct (IH _ _ _ _ _ _ Hlt' Hge' E) as (rel & -> & -> & Hrel).
+      exists rel. split; [reflexivity|split; [reflexivity|]].
+      intros x. rewrite Hrel. rewrite jget_upd, L, andb_true_r. cbn [count_occ].
+      destruct (Nat.eq_dec c0 x) as [->|Hne].
+      * rewrite Nat.eqb_refl. unfold f; cbn [jset_remaining remaining].
+        destruct (count_occ Nat.eq_dec cs x) as [|m] eqn:Cx.
+        -- cbn [Nat.ltb Nat.leb andb]. 
+           replace (remaining (jget js x) =? Z.of_nat 1)%Z with false
+             by (symmetry; apply Z.eqb_neq; lia). reflexivity.
+        -- replace (0 <? S m) with true by reflexivity.
+           replace (0 <? S (S m)) with true by reflexivity. cbn [andb].
+           destruct (Z.eqb_spec (remaining (jget js x) - 1) (Z.of_nat (S m)));
+           destruct (Z.eqb_spec (remaining (jget js x)) (Z.of_nat (S (S m)))); auto; lia.
+      * destruct (Nat.eqb_spec c0 x); [congruence|]. reflexivity.
 Qed.
